@@ -1321,6 +1321,31 @@ func conv(t_dst, t_src types.Type, x value) value {
 
 		case types.Rune:
 			x := x.([]value)
+			hasSym := false
+			for i := range x {
+				if _, ok := x[i].(sym); ok {
+					hasSym = true
+				}
+			}
+			if hasSym {
+				// symbolic runes: paths with a non-ASCII symbolic rune are cut (recorded)
+				bs := make([]value, 0, len(x))
+				for i := range x {
+					switch rv := x[i].(type) {
+					case sym:
+						if ex.Branch(Not(Cmp(OUlt, rv.t, BV(0x80, 32)))) {
+							ex.stats.Assumes["cut: non-ASCII symbolic text in []rune->string"]++
+							panic(pathEnd{"non-ASCII symbolic text"})
+						}
+						bs = append(bs, mkVal(types.Uint8, Extract(rv.t, 7, 0)))
+					case rune:
+						for _, b := range []byte(string(rv)) {
+							bs = append(bs, b)
+						}
+					}
+				}
+				return mkStr(bs)
+			}
 			r := make([]rune, 0, len(x))
 			for i := range x {
 				r = append(r, x[i].(rune))
